@@ -3,7 +3,7 @@ import ast
 import re
 from typing import List, Optional, Set, Tuple
 
-from ..core import Index, FuncDef, ClassDef, External, AnalysisError, unparse, walk_own, dotted_name, parent
+from ..core import ancestors, Index, FuncDef, ClassDef, External, AnalysisError, unparse, walk_own, dotted_name, parent
 from ..fold import Folder, Record, EnumMember, Ref, is_unknown, single_return_expr
 from ..absint import Interp, Hooks, State, K, Sym, Obj, Exc, NONE, ListVal, _builtin_issubclass
 from ..report import Check
@@ -64,6 +64,8 @@ def check(c: Check):
     clause_e(c)
     if c.tier == 'thorough':
         clause_d(c)
+    clause_f(c)
+    clause_g(c)
 
 
 # ---------------------------------------------------------------- a
@@ -421,3 +423,113 @@ def clause_e(c: Check):
                      '(form feed, vertical tab) gives IndexError -> INTERNAL_ERROR' % unparse(v),
                      '%s:%d' % (m.relpath, node.lineno))
     c.floor('C18-e', 'first-character tests on remaining source', n, 1)
+
+
+# ---------------------------------------------------------------- f
+def _assembled_templates(ix: Index, fo, m):
+    """format calls of module m whose template is put together from text that does not fold to a constant"""
+    out = []
+    total = 0
+    for node in ast.walk(m.tree):
+        if not isinstance(node, ast.Call):
+            continue
+        fmt = None
+        if isinstance(node.func, ast.Attribute) and node.func.attr in ('format', 'format_map'):
+            fmt = node.func.value
+        else:
+            fn = unparse(node.func).split('.')[-1]
+            if fn in ('FormatPositional', 'FormatMap') and node.args:
+                fmt = node.args[0]
+        if fmt is None:
+            continue
+        total += 1
+        f = m.enclosing_func(node)
+        if isinstance(fmt, (ast.BinOp, ast.JoinedStr)) and not isinstance(fo.fold(m, f, fmt), str):
+            out.append((node, fmt, f))
+    return total, out
+
+
+def clause_f(c: Check):
+    """user text is an *argument* of a message format, never part of the template: a template put together from
+    non-constant text (`'...{}' + detail`, an f-string) raises ValueError / KeyError / IndexError when the text holds
+    a brace - and since messages are rendered lazily, at print time, outside every handler, the mistake in the user's
+    input ends as an uncaught exception / INTERNAL_ERROR instead of the error it is"""
+    ix, fo = c.ix, c.fo
+    n_total = 0
+    n_bad = 0
+    for name in ix.all_module_names():
+        t = ix.text(name)
+        if 'FormatPositional' not in t and 'FormatMap' not in t and '.format(' not in t and '.format_map(' not in t:
+            continue
+        m = ix.module(name)
+        total, bad = _assembled_templates(ix, fo, m)
+        n_total += total
+        for node, fmt, f in bad:
+            n_bad += 1
+            c.bad('C18-f', 'format-template@%s' % (f.key if f else name),
+                  'the format template %s is put together from non-constant text: a brace in that text makes the '
+                  'rendering raise, outside every handler' % unparse(fmt)[:80], '%s:%d' % (m.relpath, node.lineno))
+    c.floor('C18-f', 'format calls examined', n_total, 200)
+    if not n_bad:
+        c.ok('C18-f', 'format-templates-are-constant', detail='%d format calls' % n_total)
+    import os
+    from ..report import VERIF_ROOT
+    fx = Index(os.path.join(VERIF_ROOT, 'fixtures', 'evaluators'))
+    fm = fx.module('exactly_lib.impls.fixture_format')
+    total, bad = _assembled_templates(fx, Folder(fx), fm)
+    want = sum(1 for line in fm.src.splitlines() if '# EXPECT template' in line)
+    if len(bad) != want or total < want + 1:
+        raise AnalysisError('C18-f: positive control failed: %d of %d fixture templates reported, expected %d' % (len(bad), total, want))
+
+
+# ---------------------------------------------------------------- g
+def _raising_searches(m):
+    """`x.index(...)` calls of module m that are not inside a try with a ValueError / Exception handler"""
+    out, total = [], 0
+    for node in ast.walk(m.tree):
+        if isinstance(node, ast.Call) and isinstance(node.func, ast.Attribute) and node.func.attr == 'index' and node.args:
+            total += 1
+            covered = False
+            for a in ancestors(node):
+                if isinstance(a, ast.Try) and any(node in ast.walk(s) for s in a.body):
+                    for h in a.handlers:
+                        t = unparse(h.type) if h.type is not None else 'BaseException'
+                        if any(x in t for x in ('ValueError', 'Exception')):
+                            covered = True
+            if not covered:
+                out.append(node)
+    return total, out
+
+
+def clause_g(c: Check):
+    """the document / instruction parsers search source text with find(), or handle the ValueError of index(): a
+    search that raises when the text is cut short (no newline after the last line) happens while a syntax error is
+    being reported - the ValueError replaces it and ends as INTERNAL_ERROR"""
+    ix = c.ix
+    n_mod = 0
+    n_bad = 0
+    for name in ix.all_module_names():
+        if not name.startswith(('exactly_lib.section_document.', 'exactly_lib.processing.parse.')):
+            continue
+        n_mod += 1
+        if '.index(' not in ix.text(name):
+            continue
+        m = ix.module(name)
+        total, bad = _raising_searches(m)
+        for node in bad:
+            n_bad += 1
+            f = m.enclosing_func(node)
+            c.bad('C18-g', 'raising-search@%s' % (f.key if f else name),
+                  '%s raises ValueError when the text searched for is absent (e.g. no newline after the last line of a '
+                  'truncated file) and nothing handles it' % unparse(node)[:70], '%s:%d' % (m.relpath, node.lineno))
+    c.floor('C18-g', 'parser modules scanned for raising searches', n_mod, 25)
+    if not n_bad:
+        c.ok('C18-g', 'no-raising-search-in-parsers', detail='%d modules' % n_mod)
+    import os
+    from ..report import VERIF_ROOT
+    fx = Index(os.path.join(VERIF_ROOT, 'fixtures', 'evaluators'))
+    fm = fx.module('exactly_lib.impls.fixture_format')
+    total, bad = _raising_searches(fm)
+    want = sum(1 for line in fm.src.splitlines() if '# EXPECT index' in line)
+    if len(bad) != want or total < want + 1:
+        raise AnalysisError('C18-g: positive control failed: %d of %d fixture searches reported, expected %d' % (len(bad), total, want))
